@@ -918,6 +918,19 @@ impl SA {
                         sh.model_add(*t, -1, "unhold");
                     }
                 }
+                Step::TellSelf(body) => {
+                    let r = match &me {
+                        Me::Strong(r) => Some((*r).clone()),
+                        Me::Weak(w) => w.upgrade(),
+                    };
+                    if let Some(r) = r {
+                        sh.model_add(idx, 1, "tmp+");
+                        let _tmp = TmpRef { sh: &sh, actor: idx };
+                        let h = H::from_ref(r, &sh);
+                        send_via(&sh, ctx, idx, &h, SendKind::TellTo(4), MTy::U, body.clone()).await;
+                        drop(h);
+                    }
+                }
                 Step::HoldSelf => {
                     let r = match &me {
                         Me::Strong(r) => Some((*r).clone()),
